@@ -1512,3 +1512,75 @@ func ruleC12ArgsOnce(p *Program, r *Run) {
 	}
 	r.Floor("C12/args-once", 20)
 }
+
+// ---- C12/growth: the text substituted for a name does not multiply.
+//
+// A let value is compiled to SQL text and that text is copied into the output at every use of the name. When the
+// value is itself compiled against the scope it is then stored into, it may contain the texts of earlier names any
+// number of times, so n let statements of a few bytes each can denote 2^n bytes of SQL: Compile does not return
+// for an input of a few hundred bytes. The rule looks at the let case of Compile (and the helpers it was split
+// into): the context the value is written with, the map the result is stored into, and whether anything bounds
+// the size of what is stored.
+func ruleC12Growth(p *Program, r *Run) {
+	pkg := p.PQL
+	info := pkg.TypesInfo
+	compile := p.MustFunc(pkg, "CompileOptions.Compile")
+	fn := FuncName(pkg, compile)
+	r.Saw(fn)
+	letCase := typeCaseOf(info, compile, "*parser.LetStatement")
+	if letCase == nil {
+		r.PassNT("C12/growth", fn+" let values", p.Pos(compile.Pos()), "no let statements are compiled")
+		return
+	}
+	region := p.regionOf(pkg, letCase)
+	ctxT := p.Named(pkg, "exprContext")
+	var ctxScope ast.Expr
+	var store *ast.AssignStmt
+	bounded := false
+	for _, root := range region {
+		fd := p.FuncAt(root.Pos())
+		ast.Inspect(root, func(n ast.Node) bool {
+			switch v := n.(type) {
+			case *ast.CompositeLit:
+				if types.Identical(info.TypeOf(v), ctxT) {
+					if m := litField(info, v, "mode"); m != nil && constName(info, m) == "letExprMode" {
+						ctxScope = litField(info, v, "scope")
+					}
+				}
+			case *ast.AssignStmt:
+				for _, l := range v.Lhs {
+					if ix, ok := ast.Unparen(l).(*ast.IndexExpr); ok && fd != nil {
+						if isScope, _ := p.scopeProvenance(fd, ix.X, 0); isScope {
+							store = v
+						}
+					}
+				}
+			case *ast.IfStmt:
+				// a test of the size of what was written (sb.Len() > limit, len(text) > limit)
+				ast.Inspect(v.Cond, func(m ast.Node) bool {
+					if call, ok := m.(*ast.CallExpr); ok {
+						if IsBuiltinCall(info, call, "len") {
+							if b, ok := info.TypeOf(call.Args[0]).Underlying().(*types.Basic); ok && b.Kind() == types.String {
+								bounded = true
+							}
+						}
+						if sel, ok := ast.Unparen(call.Fun).(*ast.SelectorExpr); ok && sel.Sel.Name == "Len" && isBuilder(info, sel.X) {
+							bounded = true
+						}
+					}
+					return true
+				})
+			}
+			return true
+		})
+	}
+	key := fn + " let value compiled against the scope it extends"
+	switch {
+	case store == nil || ctxScope == nil:
+		r.PassNT("C12/growth", key, p.Pos(letCase.Pos()), "let values are not stored into the scope they are compiled with")
+	case bounded:
+		r.Pass("C12/growth", key, p.Pos(store.Pos()), "the size of a let value is tested before it is stored")
+	default:
+		r.Fail("C12/growth", key, p.Pos(store.Pos()), "the SQL text of a let value is written with the same scope it is then stored into and nothing bounds its size: a value that uses the previous name twice doubles the text (`let x1 = x0 + x0; let x2 = x1 + x1; ...`), so a few hundred bytes of source denote gigabytes of SQL and Compile does not return")
+	}
+}
